@@ -9,7 +9,9 @@ import (
 	"github.com/fullstorydev/grpchan/httpgrpc"
 	"github.com/fullstorydev/grpchan/inprocgrpc"
 	"google.golang.org/grpc"
+	"google.golang.org/grpc/codes"
 	"google.golang.org/grpc/metadata"
+	"google.golang.org/grpc/status"
 )
 
 // ---------------------------------------------------------------------------
@@ -174,10 +176,33 @@ func runInprocScript(rng *Rng, kind string, o isOpts) *isScript {
 				st.evs = eng.do("h", func() string {
 					return hl.command(func(ss grpc.ServerStream, ctx context.Context) (string, bool) {
 						md := metadata.Pairs("h", strconv.Itoa(id))
-						if send {
-							return resOf(ss.SendHeader(md)), false
+						// every other call goes the way application code usually does: through the context (grpc.SendHeader /
+						// grpc.SetHeader reach the stream via the library's ServerTransportStream); grpc wraps a failure on that
+						// route into a status of its own making, so only ok / failed is kept of it
+						viaCtx := id%2 == 1
+						norm := func(err error) string {
+							if err != nil && viaCtx {
+								// (grpc's toRPCErr: context errors become Canceled / DeadlineExceeded statuses, anything else Unknown)
+								switch status.Code(err) {
+								case codes.Canceled:
+									return "ctxerr:canceled"
+								case codes.DeadlineExceeded:
+									return "ctxerr:deadline"
+								}
+								return "plain"
+							}
+							return resOf(err)
 						}
-						return resOf(ss.SetHeader(md)), false
+						if send {
+							if viaCtx {
+								return norm(grpc.SendHeader(ctx, md)), false
+							}
+							return norm(ss.SendHeader(md)), false
+						}
+						if viaCtx {
+							return norm(grpc.SetHeader(ctx, md)), false
+						}
+						return norm(ss.SetHeader(md)), false
 					})
 				})
 			case "settrailer":
